@@ -777,9 +777,18 @@ def r02_8(ctx):
                             for l2 in C.trace(ad, l.data[side]):
                                 if l2.kind == "binop" and l2.data["op"].startswith("Add") and (is_one(l2.data["b"]) or is_one(l2.data["a"])):
                                     deferred.append((l2.bb, bb))
+        # .. or handed to the map as the initial count of a new entry: `out_edge_counts.insert(depender, n)`
+        for bb, t in calls_to(ad, "std::collections::HashMap::<K, V, S, A>::insert"):
+            if _via_field(ad, t["args"][0], "out_edge_counts") and len(t["args"]) > 2:
+                for l2 in C.trace(ad, t["args"][2]):
+                    if l2.kind == "binop" and l2.data["op"].startswith("Add") and (is_one(l2.data["b"]) or is_one(l2.data["a"])):
+                        deferred.append((l2.bb, bb))
+        flushes = {}
         for (ibb, fbb) in deferred:
+            flushes.setdefault(ibb, set()).add(fbb)
+        for ibb, fbbs in flushes.items():
             # the accumulated count must reach the counter on every way out
-            after = C.after_edges(ad, out_edges(ad, [ibb]), cut=out_edges(ad, [fbb]))
+            after = C.after_edges(ad, out_edges(ad, [ibb]), cut=out_edges(ad, sorted(fbbs)))
             if not any(ad.term(x)["k"] == "return" for x in after):
                 incs.append(ibb)
         sites = []
@@ -968,6 +977,68 @@ def r02_10(ctx):
                           "as a dependency (outside PpMode::Execute)" % v.lower(), site=ctx.site(b, bad[0]), witness=C.witness(b, bad[0], cut))
         else:
             ctx.ok("%s directives always reach the dependency lookup before the second pass" % v, site=ctx.site(b, gets[0]))
+
+
+@rule("C02", "R02.11", floor=3)
+def r02_11(ctx):
+    """the file an include READS is the file that was LOOKED UP as a dependency: the first pass looks up `work_dir.join(arg)`, the
+    include arm reads `work_dir.try_resolve(arg)`, with `arg` the directive's first argument unmodified in both, and try_resolve itself
+    names `arg` / `self.p.join(arg)` and nothing else (= C10 R10.5). If one side rewrites the argument (separator conversion, a
+    fallback directory, normalisation) and the other does not, an include can read a generated file nobody waited for"""
+    import rules_dir
+    import tables as T
+    lib = ctx.lib
+    tr = lambda tt: C.is_transparent(tt) or T.item_preserving(C.callee_name(tt))
+
+    def is_arg0(b, op):
+        lv = C.trace(b, op, transparent=tr, through_fields=True)
+        if not lv or not has_field(lv, "args"):
+            return False, lv
+        for l in lv:
+            if l.kind == "field" and has_field([l], "args"):
+                continue
+            if l.kind == "param" or leaf_is_call(l, ROLE["execute_in_collect_deps_mode"]):
+                continue        # the Directive value itself (parameter / handed back by the gate)
+            if l.kind == "const" and C.op_const(l.data) in ('""', "0_usize"):
+                continue        # unwrap_or_default / map_or("", ..)
+            return False, lv
+        return True, lv
+    gate = body(ctx, "execute_in_collect_deps_mode")
+    if gate:
+        gs = calls_to(gate, ROLE["get_txtpp_file"])
+        if not gs:
+            ctx.anchor_missing("get_txtpp_file call in the collect-deps gate")
+        for bb, t in gs:
+            ok = False
+            why = "the looked-up path is not a Path::join"
+            for l in C.trace(gate, t["args"][0], transparent=tr, through_fields=True):
+                if l.kind == "call" and C.callee_name(l.data) in ("std::path::Path::join", "std::path::PathBuf::join"):
+                    a0 = C.trace(gate, l.data["args"][0], through_fields=True, transparent=lambda tt: C.is_transparent(tt, ABSPATH_VIEWS))
+                    good, lv = is_arg0(gate, l.data["args"][1])
+                    if not has_field(a0, "work_dir"):
+                        why = "the dependency is not looked up relative to IOCtx.work_dir"
+                    elif not good:
+                        why = "the looked-up name is not the directive's first argument unmodified: %s" % [repr(x) for x in lv][:3]
+                    else:
+                        ok = True
+            if ok:
+                ctx.ok("dependency lookup = work_dir.join(args[0])", site=ctx.site(gate, bb))
+            else:
+                ctx.violation([gate.name, "lookup-path"], "collect-deps gate: %s" % why, site=ctx.site(gate, bb))
+    ed = body(ctx, "execute_directive")
+    if ed:
+        rs = [(bb, t) for bb, t in calls_to(ed, ROLE["try_resolve"])]
+        if not rs:
+            ctx.anchor_missing("try_resolve call in the include arm of execute_directive")
+        for bb, t in rs:
+            a0 = C.trace(ed, t["args"][0], through_fields=True)
+            good, lv = is_arg0(ed, t["args"][1])
+            if has_field(a0, "work_dir") and good:
+                ctx.ok("include reads work_dir.try_resolve(args[0])", site=ctx.site(ed, bb))
+            else:
+                ctx.violation([ed.name, "read-path"], "the include arm does not resolve the directive's first argument unmodified against "
+                              "IOCtx.work_dir: %s" % [repr(x) for x in lv][:3], site=ctx.site(ed, bb))
+    rules_dir.r10_5(ctx)
 
 
 @rule("C03", "R03.9", floor=1)
